@@ -32,3 +32,42 @@ Fixpoint tree_ind' (t : tree) : P t :=
             end) xs)
   end.
 End TreeInd.
+
+(* Two levels deep under an operator node: the parser builds quantifiers as
+   Opr op [Opr "params" vs; body] and LET as Opr op [Lst defs; body] with
+   defs = [Bin _ "==" name e; ...]; an induction over such trees needs the
+   hypothesis for the binders vs and the definition bodies e too. *)
+Definition def_body_P (P : tree -> Prop) (d : tree) : Prop :=
+  match d with Bin _ _ _ e => P e | _ => True end.
+Definition arg_sub (P : tree -> Prop) (a : tree) : Prop :=
+  match a with
+  | Opr _ vs => Forall P vs
+  | Lst ds => Forall (def_body_P P) ds
+  | _ => True
+  end.
+
+Section TreeInd2.
+Variable P : tree -> Prop.
+Hypothesis HT : forall k v, P (Term k v).
+Hypothesis HU : forall op x, P x -> P (Un op x).
+Hypothesis HB : forall c op l r, P l -> P r -> P (Bin c op l r).
+Hypothesis HO : forall op args,
+  Forall P args -> Forall (arg_sub P) args -> P (Opr op args).
+Hypothesis HL : forall xs, Forall P xs -> P (Lst xs).
+
+Lemma tree_ind2 : forall t, P t.
+Proof.
+  assert (H : forall t, P t /\ arg_sub P t /\ def_body_P P t).
+  { induction t using tree_ind'.
+    - simpl. auto.
+    - simpl. intuition.
+    - simpl. intuition.
+    - assert (F1 : Forall P args) by (eapply Forall_impl; [|exact H]; simpl; tauto).
+      assert (F2 : Forall (arg_sub P) args) by (eapply Forall_impl; [|exact H]; simpl; tauto).
+      simpl. auto.
+    - assert (F1 : Forall P xs) by (eapply Forall_impl; [|exact H]; simpl; tauto).
+      assert (F2 : Forall (def_body_P P) xs) by (eapply Forall_impl; [|exact H]; simpl; tauto).
+      simpl. auto. }
+  intro t. apply H.
+Qed.
+End TreeInd2.
